@@ -842,6 +842,11 @@ pub fn programs(tier: Tier) -> Vec<(String, Vec<Stmt>)> {
         ("missing-export", with_t(vec![Arg::Fill], vec![Stmt::Let("bad".into(), acc(id("t"), "nope"))])),
         ("missing-named-export", with_t(vec![Arg::Fill], vec![Stmt::Let("bad".into(), Expr::NamedAccess(Box::new(id("t")), "foo".into()))])),
         ("unknown-argument-name", with_t(vec![Arg::NamedId("zz".into(), id("px")), Arg::Fill], vec![])),
+        // a name written as a string is exact: the last-segment / version-less shorthands are for identifiers
+        ("string-name-is-last-segment", with_t(vec![Arg::NamedStr("foo".into(), id("pfoo")), Arg::Fill], vec![])),
+        ("string-name-is-last-segment-of-versioned", with_t(vec![Arg::NamedStr("bar".into(), id("pbar")), Arg::Fill], vec![])),
+        ("string-name-lacks-version", with_t(vec![Arg::NamedStr("a:b/bar".into(), id("pbar")), Arg::Fill], vec![])),
+        ("string-name-is-last-segment-no-fill", with_t(vec![Arg::NamedStr("foo".into(), id("pfoo"))], vec![])),
         ("mismatched-type", with_t(vec![Arg::NamedId("x".into(), id("pother")), Arg::Fill], vec![])),
         ("implicit-conflicts-with-explicit", with_t(vec![Arg::Inferred("ifoo".into()), Arg::Fill], vec![])),
         ("duplicate-import-name", {
